@@ -41,11 +41,13 @@ func (s *verifSession) SetData(k string, v interface{})      { s.data[k] = v }
 func (s *verifSession) DeleteData(k string)                  { delete(s.data, k) }
 func (s *verifSession) HasData(k string) bool                { _, ok := s.data[k]; return ok }
 
-func verifPgKeys() *vks.Store {
+func verifPgKeys() *vks.Store { return verifPgKeysT(verif.Tier() == 1) }
+
+func verifPgKeysT(symbolic bool) *vks.Store {
 	s := vks.New()
 	ka := []byte("0123456789abcdef0123456789abcdeA")
 	kb := []byte("0123456789abcdef0123456789abcdeB")
-	if verif.Tier() == 1 {
+	if symbolic {
 		ka = verif.Bytes("symA", 32)
 		kb = verif.Bytes("symB", 32)
 		verif.Assume(!verif.Eq(ka, kb))
@@ -426,7 +428,7 @@ func VerifC04_PgExtendedWriteThenRead() {
 		// the column decoder runs every value through the escape-format decoder, which converts to []rune
 		verif.FreshASCII()
 	}
-	store := verifPgKeys()
+	store := verifPgKeysT(verif.Tier() == 1 && !binaryResult)
 	envelope := config.CryptoEnvelopeTypeAcraBlock
 	if verif.Choose("envelope", 0, 1) == 1 {
 		envelope = config.CryptoEnvelopeTypeAcraStruct
